@@ -72,11 +72,15 @@ func thorough() bool { return cfg.Tier == "thorough" }
 // the checks were written; the machine has room for more).
 const quickMult = 3
 
+// thoroughMult scales the thorough tier likewise (a full thorough run of all twenty
+// properties takes about an hour on 16 cores).
+const thoroughMult = 4
+
 // n picks a per-cell case count by tier.
 func nCases(quick, thor int) int {
 	n := quick * quickMult
 	if thorough() {
-		n = thor
+		n = thor * thoroughMult
 	}
 	n = int(float64(n) * cfg.Scale)
 	if n < 1 {
